@@ -294,8 +294,29 @@ theorem current_lazy_verdict :
     obtain ⟨fns, locs, g, h1, _, h3⟩ := lazy_ne_eager_of_incomplete _ _ _ hc
     exact ⟨fns, locs, g, h1, h3⟩
 
+/-- **reads_table_complete / writes_table_complete hold for the current source** (regenerated tables,
+re-checked by the kernel on every run; repaired by commit 3aea2ca: both functions now scan `Operands()`.
+On the pinned tree 40 operand positions were unrecognised: finding F4, whose model is
+`lazy_ne_eager_of_incomplete`.) -/
+theorem reads_table_complete : readsTableComplete = true := by decide
+
+theorem writes_table_complete : writesTableComplete = true := by decide
+
+/-- hence **lazy = eager at every global node, for the current source**: taint's on-demand mode (and any
+pkg-filter) follows the same read locations as the eager mode, backtrace's the same write locations. -/
+theorem current_lazy_eq_eager (fns : List Fn) (locs : Nat → Nat → List Nat)
+    (hwf : ∀ f ∈ fns, WF Argot.Gen.T1.ssaOperands f)
+    (hlocs : ∀ i g, locs i g ≠ [] → ∃ f, fns[i]? = some f ∧ hasAccessNode f g = true) (g : Nat) :
+    lazySucc Argot.Gen.T2.fnReads Argot.Gen.T2.fnReadsGeneric fns locs g = eagerSucc fns locs g ∧
+    lazySucc Argot.Gen.T2.fnWrites Argot.Gen.T2.fnWritesGeneric fns locs g = eagerSucc fns locs g :=
+  ⟨lazy_eq_eager _ _ _ reads_table_complete fns hwf locs hlocs g,
+   lazy_eq_eager _ _ _ writes_table_complete fns hwf locs hlocs g⟩
+
 #print axioms lazy_eq_eager
 #print axioms lazy_ne_eager_of_incomplete
+#print axioms reads_table_complete
+#print axioms writes_table_complete
+#print axioms current_lazy_eq_eager
 #print axioms t2_parsed
 #print axioms current_lazy_verdict
 
